@@ -285,6 +285,12 @@ struct SyncModel {
   // clock's seconds is as bounded as one that uses millis(), but no machine can be held to a deadline that passed
   // while nobody called it.
   int64_t dueMin = INT64_MIN / 4, dueExpect = 0, dueMax = 0, start = 0, polled = 0;
+  // A machine sees time only at loop() calls. The model declares a time-out at the first call AT or after the instant;
+  // a machine that compares strictly notices it at the first call AFTER it - possibly much later, if calls are sparse -
+  // and may count its back-off from there. So the liveness bound of a failure is re-based at the first call at which
+  // simulated time has moved on.
+  bool rebasePending = false;
+  int64_t failT = 0;
   int overdue = 0, unread = 0, failStreak = 0;
   uint64_t requests = 0, successes = 0, failures = 0;
 
@@ -293,6 +299,7 @@ struct SyncModel {
     if (c.init > c.sync) C.insert(c.sync);   // "up to the sync period": a machine may clamp the initial period at once
     phase = IDLE; after = BOOT; dueMin = INT64_MIN / 4; dueExpect = now; dueMax = polled + maxPeriodMs();
     overdue = unread = failStreak = 0;
+    rebasePending = false;
   }
   // one largest period, plus one second: a machine that waits on whole seconds of its own clock (whose sub-second
   // phase is arbitrary) is up to 999 ms later than one that waits on milliseconds, and just as bounded
@@ -315,6 +322,7 @@ struct SyncModel {
     dueMin = start + P * 1000;
     dueExpect = f > dm ? f : dm;
     dueMax = polled + maxPeriodMs();
+    rebasePending = true; failT = f;
     advanceC();
     overdue = 0; failStreak++; failures++;
   }
